@@ -22,7 +22,8 @@ from pysph.base.utils import get_particle_array                 # noqa: E402
 from pysph.base import nnps                                     # noqa: E402
 from cyarray.api import LongArray, UIntArray                    # noqa: E402
 
-ALGS = [a for a in ('LinkedListNNPS', 'OctreeNNPS', 'ZOrderNNPS',
+ALGS = [a for a in ('LinkedListNNPS', 'BoxSortNNPS', 'CellIndexingNNPS',
+                    'OctreeNNPS', 'ZOrderNNPS',
                     'StratifiedSFCNNPS', 'CompressedOctreeNNPS',
                     'ExtendedZOrderNNPS')
         if hasattr(nnps, a)]
@@ -92,7 +93,10 @@ def one(seed, rounds):
             cases += 1
             ind = LongArray()
             nn.set_context(0, 0)
-            nn.get_spatially_ordered_indices(0, ind)
+            try:
+                nn.get_spatially_ordered_indices(0, ind)
+            except NotImplementedError:
+                break          # this class does not support re-ordering
             got = sorted(ind.get_npy_array().tolist())
             if got != list(range(n)):
                 return dict(where, round=rnd, problem='ordered indices are '
@@ -138,9 +142,74 @@ def one(seed, rounds):
     return None, cases
 
 
+def solver_reorder(seed):
+    """Solver.reorder_particles at the end of a step: the step's last
+    nnps.update() is followed by update_domain() (ghosts re-created) before
+    the solver re-orders.  Run in a child process: a stale ordering reads
+    outside its index list."""
+    import os
+    rd, wr = os.pipe()
+    pid = os.fork()
+    if pid == 0:
+        os.close(rd)
+        msg = ''
+        try:
+            from pysph.solver.solver import Solver
+            rng = np.random.RandomState(seed)
+            n = 150
+            pa = get_particle_array(name='p', x=rng.rand(n), y=rng.rand(n),
+                                    h=0.05 * np.ones(n))
+            pa.add_property('ident', type='long')
+            pa.ident[:] = np.arange(n)
+            dm = nnps.DomainManager(xmin=0, xmax=1, ymin=0, ymax=1,
+                                    periodic_in_x=True, periodic_in_y=True)
+            nn = nnps.LinkedListNNPS(dim=2, particles=[pa], domain=dm)
+            sv = Solver.__new__(Solver)
+            sv.particles = [pa]
+            sv.nnps = nn
+            for rnd in range(3):
+                pa.x[:] = pa.x + rng.uniform(-0.06, 0.06, n)
+                pa.y[:] = pa.y + rng.uniform(-0.06, 0.06, n)
+                nn.update_domain()          # as Integrator.update_domain
+                before = sorted(zip(pa.ident.tolist(), pa.x.tolist(),
+                                    pa.y.tolist()))
+                sv.reorder_particles()
+                after = sorted(zip(pa.ident.tolist(), pa.x.tolist(),
+                                   pa.y.tolist()))
+                if before != after or len(pa.x) != n:
+                    msg = 'real particles are not the same multiset after ' \
+                        'Solver.reorder_particles (round %d): %d real ' \
+                        'particles, %d distinct ids' % (
+                            rnd, len(pa.x), len(set(pa.ident.tolist())))
+                    break
+        except Exception as e:
+            msg = 'raised %s: %s' % (type(e).__name__, str(e)[:200])
+        os.write(wr, msg.encode()[:900])
+        os._exit(1 if msg else 0)
+    os.close(wr)
+    _, status = os.waitpid(pid, 0)
+    msg = os.read(rd, 1000).decode()
+    os.close(rd)
+    if os.WIFSIGNALED(status):
+        return dict(algorithm='LinkedListNNPS', problem='Solver.'
+                    'reorder_particles after update_domain() on a doubly '
+                    'periodic box: process killed by signal %d' %
+                    os.WTERMSIG(status), seed=seed)
+    if os.WEXITSTATUS(status) != 0:
+        return dict(algorithm='LinkedListNNPS', problem='Solver.'
+                    'reorder_particles after update_domain() on a doubly '
+                    'periodic box: ' + msg, seed=seed)
+    return None
+
+
 bad = None
 total = 0
-for seed in d['seeds']:
+for seed in d['seeds'][:3]:
+    bad = solver_reorder(seed)
+    total += 1
+    if bad:
+        break
+for seed in (d['seeds'] if bad is None else []):
     b, c = one(seed, d.get('rounds', 3))
     total += c
     if b is not None:
